@@ -152,6 +152,12 @@ class GetIndexOf:
             rq = to_z3(r.f((q,)))
             yield 'idx', z3.ForAll([q], z3.Implies(z3.And(0 <= q, q < to_z3(lons.shape[0])),
                                                    z3.And(0 <= rq, rq < L.N, L.active(rq))), patterns=[rq])
+            # ... and a point inside the half-open cell of an active cell i gets exactly i (clause (A), proved below)
+            i_ = z3.Int('i!q')
+            lonq, latq = to_real(lons.f((q,))), to_real(lats.f((q,)))
+            yield 'inside', z3.ForAll([q, i_], z3.Implies(
+                z3.And(0 <= q, q < to_z3(lons.shape[0]), 0 <= i_, i_ < L.N, L.active(i_), L.inside(i_, lonq, latq)), rq == i_),
+                patterns=[z3.MultiPattern(rq, L.cx(i_))])
             return
         e, i = c.ctx.fresh_int('e!sk'), c.ctx.fresh_int('i!sk')
         ine = z3.And(0 <= e, e < lons.n)
